@@ -101,17 +101,31 @@ def run(ch: Checker) -> None:
     for c, okn in sites.values():
         ch.check(okn, 'C10.2', uwe, c, 'registration recorded in registered_events_by_work_ids right after the selector call',
                  'a descriptor is registered/modified in the selector without being recorded for its work at once: _cleanup will not unregister it')
-    # _cleanup: unregister loop over the recorded descriptors precedes shutdown
-    ok_loop = False
-    for l in walk_no_nested(cl.node):
-        if isinstance(l, ast.For) and norm(l.iter) == 'self.registered_events_by_work_ids[work_id]':
-            if any(isinstance(c, ast.Call) and attr_chain(c.func) == 'self.selector.unregister' and c.args and norm(c.args[0]) == norm(l.target) for c in walk_no_nested(l)):
-                ok_loop = True
-                loop_line = l.lineno
-    sd_line = min([c.lineno for c in walk_no_nested(cl.node) if isinstance(c, ast.Call) and (isinstance(c.func, ast.Attribute) and c.func.attr == 'shutdown')] or [0])
-    ch.check(ok_loop and sd_line > loop_line if ok_loop else False, 'C10.2', cl, 'unregister before shutdown',
-             'every recorded descriptor is unregistered before shutdown() closes the sockets',
-             '_cleanup does not unregister every descriptor recorded for the work before shutdown(): closed descriptors stay in the selector map')
+    # _cleanup: unregister loop over the recorded descriptors precedes shutdown (path based, helper calls are inlined)
+    bad_u = None
+    n_u = 0
+    for p in fpaths(gcl):
+        sym = Sym(p)
+        fd = dict(p.facts())
+        sd_steps = [i for i, nd, lab in p.executed() if nd.kind == 'stmt' and any(isinstance(c, ast.Call) and isinstance(c.func, ast.Attribute) and c.func.attr == 'shutdown' for c in walk_no_nested(nd.ast))]  # type: ignore[arg-type]
+        if not sd_steps:
+            continue
+        recorded = [v for k, v in fd.items() if k.endswith('in self.registered_events_by_work_ids')]
+        if not recorded or recorded[-1] is not True:
+            continue
+        n_u += 1
+        ok = False
+        for i, (nid, lab) in enumerate(p.steps[:sd_steps[0]]):
+            nd = gcl.nodes[nid]
+            if nd.kind == 'for':
+                it = norm(sym.value(nd.ast.iter, i))  # type: ignore[union-attr]
+                if it in ('self.registered_events_by_work_ids[work_id]', 'self.registered_events_by_work_ids[work_id].keys()', 'list(self.registered_events_by_work_ids[work_id])') and \
+                        any(isinstance(c, ast.Call) and attr_chain(c.func) == 'self.selector.unregister' and c.args and norm(c.args[0]) == norm(nd.ast.target) for c in walk_no_nested(nd.ast)):  # type: ignore[union-attr]
+                    ok = True
+        if not ok:
+            bad_u = ('_cleanup reaches shutdown() for a work with recorded descriptors without first unregistering every one of them: closed descriptors stay in the selector map', p.describe(20))
+    ch.check(bad_u is None and n_u > 0, 'C10.2', cl, 'unregister before shutdown', 'every recorded descriptor is unregistered before shutdown() closes the sockets (%d path(s))' % n_u,
+             bad_u[0] if bad_u else 'no path with recorded descriptors reaches shutdown()', witness=bad_u[1] if bad_u else None)
     for fname, reg_in in (('_run_once', None), ('_flush', 'self.selector.register')):
         f = prog.own_method('HttpProtocolHandler', fname)
         gf = cfg_of(f, prog)
